@@ -159,3 +159,10 @@ package dns
 //@   pure
 //@ extern crypto/hmac.Equal
 //@   pure
+
+//@ extern strings.HasPrefix
+//@   ensures ret0 == (len(s) >= len(prefix) && (forall k in 0..len(prefix) :: s[k] == prefix[k]))
+//@   pure
+//@ extern strings.HasSuffix
+//@   ensures ret0 == (len(s) >= len(suffix) && (forall k in 0..len(suffix) :: s[len(s) - len(suffix) + k] == suffix[k]))
+//@   pure
